@@ -660,12 +660,38 @@ var witnesses = []string{
 	"a <<EOF || let 1\nb\nEOF\n",        // KF-C10-1
 }
 
+// readQuoted reads a file of Go-quoted strings, one per line
+func readQuoted(path string) []string {
+	f, err := os.Open(path)
+	if err != nil {
+		return nil
+	}
+	defer f.Close()
+	var out []string
+	sc := bufio.NewScanner(f)
+	sc.Buffer(make([]byte, 1<<20), 1<<20)
+	for sc.Scan() {
+		if s, err := strconv.Unquote(sc.Text()); err == nil {
+			out = append(out, s)
+		}
+	}
+	return out
+}
+
 func main() {
 	o := hx.ParseArgs()
 	defer hx.Flush()
 	repo := "/repo"
-	if len(o.Args) > 0 {
-		repo = o.Args[0]
+	regress, regressPos := "", ""
+	for _, a := range o.Args {
+		switch {
+		case strings.HasPrefix(a, "regress="):
+			regress = a[len("regress="):]
+		case strings.HasPrefix(a, "regress_pos="):
+			regressPos = a[len("regress_pos="):]
+		default:
+			repo = a
+		}
 	}
 	var c counters
 	nfail := 0
@@ -694,6 +720,10 @@ func main() {
 		for _, s := range witnesses {
 			checkPrefixes(s, "witness", &c, emitC)
 		}
+		// pinned regression corpus (corpus/c10/regress.txt): runs first, on every seed and tier
+		for _, s := range readQuoted(regress) {
+			checkPrefixes(s, "witness", &c, emitC)
+		}
 		for _, s := range corpus(repo) {
 			checkPrefixes(s, "corpus", &c, emitC)
 		}
@@ -719,14 +749,16 @@ func main() {
 		}
 		r := hx.Rand(o.Seed, 1011)
 		// readers that return (0, nil) once at a split point: same error, same position, inside the input
-		for _, s := range cs {
+		// (the pinned corpus/c10/regress_pos.txt first, every split point)
+		pinned := readQuoted(regressPos)
+		for i, s := range append(pinned, cs...) {
 			for _, lang := range langs {
 				base := parse(s, lang)
 				if base.Ok || base.Pnc {
 					continue
 				}
 				var splits []int
-				if len(s) <= 48 || o.Tier == "thorough" {
+				if i < len(pinned) || len(s) <= 48 || o.Tier == "thorough" {
 					for k := 0; k <= len(s); k++ {
 						splits = append(splits, k)
 					}
